@@ -218,7 +218,10 @@ c.ensures("implies(bytes != _zero_bytes, spec.ed_view(result) == spec.ed_aff(spe
 c = REG.contract(M + "bytes_to_element")
 c.params(bytes="bytes").returns("obj:" + ELT).pure()
 c.raises("Exception", "not spec.ed_decodable(bytes)", name="undecodable", tags="C05 C15 C01")
-c.lemma("entry", "ed_decode_complete", "bytes", "spec.ed_decode_xy(bytes)[0]", "spec.ed_decode_xy(bytes)[1]")
+# completeness of decoding, from the Lean theorem about the real xrecover (no cited lemma any more): if `bytes` is the
+# canonical encoding of P then decodepoint finds exactly P
+c.hint("entry", "spec.ed_point_facts(spec.dec(spec.ed_group(), bytes))", name="points-are-coordinate-pairs")
+c.lemma("entry", "ed_xrecover_complete", "spec.ed_decode_xy(bytes)[1]", "spec.dec(spec.ed_group(), bytes)")
 c.lemma("after:P", "ed_insub_def", "spec.ed_view(P)")
 c.hint("entry", "spec.ed_enc(spec.ed_O()) == _zero_bytes", name="zero-bytes-encode-the-identity")
 c.hint("after:P", "spec.ed_decodable_intro(spec.ed_view(P), bytes)", name="definition-of-decodable")
